@@ -120,9 +120,9 @@ func TestVerif_C19(t *testing.T) {
 	cases := vh.NewCases("cases_c19", []string{"YF.C19_Stream"}, "case", "check")
 	seed := vh.Seed()
 	e1 := vfxDefaultSpec("c19e1", 1, seed)
-	e1.NumSlots, e1.FirstRel, e1.SkipPercent, e1.Gsfa, e1.Accounts, e1.MaxTx = 26, vfxEpochLen-26, 30, true, 3, 3
+	e1.NumSlots, e1.FirstRel, e1.SkipPercent, e1.Gsfa, e1.Accounts, e1.MaxTx, e1.MultiSig = 26, vfxEpochLen-26, 30, true, 3, 3, true
 	e2 := vfxDefaultSpec("c19e2", 2, seed+1)
-	e2.NumSlots, e2.FirstRel, e2.SkipPercent, e2.Gsfa, e2.Accounts, e2.MaxTx = 24, 0, 30, true, 3, 3
+	e2.NumSlots, e2.FirstRel, e2.SkipPercent, e2.Gsfa, e2.Accounts, e2.MaxTx, e2.MultiSig = 24, 0, 30, true, 3, 3, true
 	specs := []vfxSpec{e1, e2}
 	dense := vfxDefaultSpec("c19dense", 4, seed+2) // more than 100 transactions of one account inside one range
 	dense.NumSlots, dense.SkipPercent, dense.Gsfa, dense.Accounts, dense.MaxEntries, dense.MaxTx = 40, 0, true, 1, 3, 4
